@@ -106,7 +106,7 @@ def sanitize_variable_name(
             for char in unicodedata.normalize("NFKC", name)
         ]
     )
-    if not base_name or base_name[0].isdigit():
+    if not base_name[:1].isidentifier():
         base_name = "_" + base_name
 
     # Verify new name is not in env already, and if not add a random suffix.
